@@ -92,6 +92,11 @@ func coqOpH(op *Op, rendered []Res, hooks string) string {
 	default:
 		o = fmt.Sprintf("(OpUninstall %s)", coqFlags(op.Flags))
 	}
+	return fmt.Sprintf("(mkOp %s %s)", o, CoqFaults(op))
+}
+
+// CoqFaults prints the storage and cluster fault plans of an operation: (mkSF ..) (mkCF ..)
+func CoqFaults(op *Op) string {
 	kf, hf := "None", "None"
 	if op.KFault != nil {
 		kf = fmt.Sprintf("(Some (%s, %s))", verbCtor[op.KFault.Verb], hx.CoqStr(op.KFault.Key))
@@ -99,7 +104,7 @@ func coqOpH(op *Op, rendered []Res, hooks string) string {
 	if op.HFault != nil {
 		hf = fmt.Sprintf("(Some (%s, %d))", hx.CoqStr(op.HFault.Name), op.HFault.Nth)
 	}
-	return fmt.Sprintf("(mkOp %s (mkSF %s %s) (mkCF %s %s %s))", o, optNat(op.WFail), optNat(op.Crash), kf, hf, hx.CoqBool(op.WaitFail))
+	return fmt.Sprintf("(mkSF %s %s) (mkCF %s %s %s)", optNat(op.WFail), optNat(op.Crash), kf, hf, hx.CoqBool(op.WaitFail))
 }
 
 func coqObjs(m map[string]map[string]string) string {
@@ -172,6 +177,12 @@ func CoqCase(h History, o Obs) string { return CoqCaseWith(h, o, nil) }
 // CoqCaseWith: like CoqCase; hooksTerm (optional) gives, for the install / upgrade at step i, the Gallina term
 // of type list hook to use instead of the printed rendered hooks ("" = default).
 func CoqCaseWith(h History, o Obs, hooksTerm func(i int) string) string {
+	return CoqCaseExt(h, o, hooksTerm, nil, "mkCase")
+}
+
+// CoqCaseExt: like CoqCaseWith; stepTerm (optional) may replace the printed term of step i (def = the default term
+// "HOp ..." / "HEdit ..."), ctor is the case constructor (for a property with its own step type, e.g. C12's helm test).
+func CoqCaseExt(h History, o Obs, hooksTerm func(i int) string, stepTerm func(i int, s Step, def string) string, ctor string) string {
 	init := map[string]map[string]string{}
 	for _, r := range h.Init {
 		init[r.Key()] = r.Fields
@@ -196,7 +207,10 @@ func CoqCaseWith(h History, o Obs, hooksTerm func(i int) string) string {
 		} else {
 			steps = append(steps, fmt.Sprintf("HEdit (EDel %s)", hx.CoqStr(s.Edit.Del)))
 		}
+		if stepTerm != nil {
+			steps[len(steps)-1] = stepTerm(i, s, steps[len(steps)-1])
+		}
 		obs = append(obs, fmt.Sprintf("mkObs %s %s %s %s", coqOutcome(so.Outcome), coqLedger(so.Ledger), coqObjs(so.Objs), coqTrace(so.Trace)))
 	}
-	return fmt.Sprintf("mkCase %s\n  %s\n  %s", coqObjs(init), hx.CoqList(steps), "["+strings.Join(obs, ";\n   ")+"]")
+	return fmt.Sprintf("%s %s\n  %s\n  %s", ctor, coqObjs(init), hx.CoqList(steps), "["+strings.Join(obs, ";\n   ")+"]")
 }
